@@ -342,6 +342,76 @@ theorem rmImm8_formOk (ctx : Spec.X86.Ctx) (rule : Rule) (opcode d r0 : BitVec 3
         rw [← hrb]; simp [fix1, e1, e2]
       exact regOkB_plain k0 _ _ p h (by rw [e])
 
+/-- shape [rm, x] with digit `d`, any second operand whose own conditions hold (`hic`), any immediate width: whatever `EmitX86R` emits (when it accepts) satisfies the monitor - ALL registers of ALL sizes, incl.
+AH..BH (4..7, no REX) and SPL..DIL (forced REX) -/
+theorem rmAny_formOk (ctx : Spec.X86.Ctx) (rule : Rule) (opcode d r0 : BitVec 32) (k0 : RegKind) (f0 f3 : FormOp) (o1 : Operand) (imm : BitVec 64) (n : Nat)
+    (hm64 : ctx.mode64 = true) (hmode : (rule.modes &&& 2 != 0) = true) (hopc : opcode &&& 0xF7801C00#32 = 0#32)
+    (hk0 : k0 = .gpb ∨ k0 = .gpbhi ∨ PlainKind k0) (hd : d < 8#32)
+    (h0 : r0 < 16#32) (h0' : k0 = .gpbhi → r0 < 4#32)
+    (R : LegRuleD rule n ((opcode >>> 21) &&& 3#32).toNat d.toNat) (A : LegAgree rule opcode)
+    (hr0 : f0.role = .rm) (ho1 : (∃ v, o1 = .imm v) ∨ (∃ k i, o1 = .reg k i))
+    (hic : ∀ p : Parsed, p.imm = emitImmediate imm n → allOk (opConds ctx rule p 0 f3 o1).1 = true)
+    (hal : alignOps rule.oszEff rule.ops [.reg k0 r0.toNat, o1] = some [(f0, some (.reg k0 r0.toNat)), (f3, some o1)])
+    (bytes : List (BitVec 8))
+    (hb : emitX86R opcode (fix1 k0 r0).1 d (fix1 k0 r0).2 imm n = .ok bytes) :
+    formOk ctx rule [.reg k0 r0.toNat, o1] {} bytes = true := by
+  generalize hopt : (fix1 k0 r0).1 = opt at hb
+  generalize hrb : (fix1 k0 r0).2 = rb at hb
+  have hfacts : opt &&& 0x3FFFFFFF#32 = 0#32 ∧ rb < 16#32 := by
+    rw [← hopt, ← hrb]
+    rcases hk0 with h | h | h
+    · subst h
+      simp only [fix1, fixK, oRex, oInvalidRex, beq_self_eq_true, Bool.true_or, ↓reduceIte, show (RegKind.gpb == RegKind.gpbhi) = false from rfl, Bool.false_eq_true]
+      split <;> refine ⟨?_, ?_⟩ <;> bv_decide
+    · subst h
+      have a := h0' rfl
+      simp only [fix1, fixK, oRex, oInvalidRex, beq_self_eq_true, Bool.or_true, ↓reduceIte]
+      refine ⟨?_, ?_⟩ <;> bv_decide
+    · obtain ⟨n1, n2, -⟩ := h
+      have e1 : (k0 == RegKind.gpb) = false := by simpa using n2
+      have e2 : (k0 == RegKind.gpbhi) = false := by simpa using n1
+      simp only [fix1, e1, e2, Bool.or_self, Bool.false_eq_true, ↓reduceIte]
+      exact ⟨by decide, h0⟩
+  obtain ⟨hoptm, hrb16⟩ := hfacts
+  by_cases hok : (extractRex opcode opt ||| ((d &&& 8#32) >>> 1) ||| ((rb &&& 8#32) >>> 3)) > 0x80#32
+  · rw [emitX86R_invalidRex opcode opt d rb imm n hok] at hb
+    cases hb
+  · obtain ⟨bytes', p, hb', hp, P, hR, hB, hi, hrex, hvk⟩ := x86R_parsedO rule opcode opt d rb imm n hopc hoptm (by bv_decide) hrb16 hok d.toNat R A
+    rw [hb'] at hb
+    injection hb with hb
+    subst hb
+    refine leg_rm_any_formOkG ctx rule p _ _ _ d.toNat n k0 f0 f3 _ o1 ho1 (by simpa [hm64] using hmode) R
+      (by simpa [BitVec.lt_def] using hd) (modrmRR_reg d rb hd) hr0 (hic p hi) ?_ hal (by rw [hm64]; exact hp) P
+    rw [hB]
+    rcases hk0 with h | h | h
+    · subst h
+      have e : rb = r0 := by rw [← hrb]; simp [fix1, fixK]
+      refine regOkB_gpb _ _ p (by rw [e]) ?_
+      intro h4 h8 hnone
+      have hz := (hrex.mp hnone).1
+      have h4' : r0 ≥ 4#32 := by simpa [BitVec.le_def] using h4
+      rw [← hopt] at hz
+      simp only [fix1, fixK, oRex, oInvalidRex, beq_self_eq_true, Bool.true_or, ↓reduceIte, show (RegKind.gpb == RegKind.gpbhi) = false from rfl,
+        Bool.false_eq_true, h4'] at hz
+      bv_decide
+    · subst h
+      have e : rb = r0 + 4#32 := by rw [← hrb]; simp [fix1, fixK]
+      have a := h0' rfl
+      refine regOkB_gpbhi _ _ p ?_ (hrex.mpr ?_)
+      · rw [e]
+        have : r0.toNat < 4 := by simpa [BitVec.lt_def] using a
+        simp [BitVec.toNat_add]; omega
+      · simp only [extractRex] at hok
+        rw [← hopt, ← hrb] at hok ⊢
+        simp only [fix1, fixK, oRex, oInvalidRex, beq_self_eq_true, Bool.or_true, ↓reduceIte] at hok ⊢
+        refine ⟨?_, ?_, ?_, ?_⟩ <;> bv_decide
+    · have e : rb = r0 := by
+        obtain ⟨n1, n2, -⟩ := h
+        have e1 : (k0 == RegKind.gpb) = false := by simpa using n2
+        have e2 : (k0 == RegKind.gpbhi) = false := by simpa using n1
+        rw [← hrb]; simp [fix1, e1, e2]
+      exact regOkB_plain k0 _ _ p h (by rw [e])
+
 /-! ### immediates of 16 / 32 bits and sign-extended immediates -/
 
 /-- the encoder's immediate bytes are the little-endian bytes the monitor expects -/
